@@ -25,6 +25,10 @@ SUBSET_CFGS = [
     {"localVarPrefix": "q", "csiMethods": [{"src": "plusOperator"}, {"src": "trim", "operator": True}, {"src": "concat", "dst": "cc"},
                                            {"src": "aloneMethod", "dst": "alone", "allowedWithoutCallee": True}]},
     {"localVarPrefix": "p", "csiMethods": []},
+    # several methods behind one hook name, comments kept, chaining on, a prefix that is a non-ASCII identifier part
+    {"localVarPrefix": "caf\u00e9", "comments": True, "chainSourceMap": True, "telemetryVerbosity": "DEBUG", "csiMethods": [
+        {"src": "plusOperator", "operator": True}, {"src": "tplOperator", "operator": True}, {"src": "trim", "dst": "strOp"},
+        {"src": "concat", "dst": "strOp"}, {"src": "substring", "dst": "strOp"}, {"src": "slice", "dst": "strOp"}]},
 ]
 
 WANT = ["in_ast", "out_ast", "effective_config", "events"]
@@ -146,6 +150,8 @@ def cases(seed, tier):
         for idx in (0, 1, 7):
             nm = "__datadog_p_%d" % idx
             out.append({"name": "rsv/%s/%d" % (pn, idx), "code": tmpl.replace("RSV", nm), "config": FULL_CFG})
+        for sn, spelling in RESERVED_SPELLINGS:
+            out.append({"name": "rsv/%s/%s" % (pn, sn), "code": tmpl.replace("RSV", spelling % 1), "config": FULL_CFG})
     return out
 
 
@@ -196,7 +202,16 @@ RESERVED_PLACEMENTS = [
     ("destructuring", "function m(a, b) { const { x: RSV } = a; return a + b(); }"),
     ("for_of_binding", "function m(a, b) { for (const RSV of a) { v = a + b(); } }"),
     ("no_temps_needed", "function m(a, b) { return RSV + a; }"),
+    ("concise_arrow_body", "function m(a, b) { const peek = () => RSV; const r = a() + b(); return [r, peek()]; }"),
+    ("concise_arrow_body_arg", "function m(a, b) { const r = a() + b(); return [r].map((x) => RSV); }"),
+    ("arrow_block_body", "function m(a, b) { const peek = () => { return RSV; }; return a() + b(); }"),
+    ("typeof_operand", "function m(a, b) { return typeof RSV + a + b(); }"),
+    ("class_field", "function m(a, b) { class C { f = RSV; } return a + b(); }"),
+    ("default_param", "function m(a, b) { function n(x = RSV) { return x; } return a + b(); }"),
 ]
+
+# the same name spelled with unicode escapes (the name is what counts, not its spelling in the text)
+RESERVED_SPELLINGS = [("brace_escape", "__datadog\\u{5f}p_%d"), ("first_char", "\\u005f_datadog_p_%d"), ("digit", "__datadog_p_\\u003%d")]
 
 
 _NORM_JOB = None
